@@ -220,6 +220,19 @@ def UIdx.disconnectBlock (u : UIdx) (txs : List BTx) : UIdx :=
   let r := Idx.disconnect u.txdb u.cache (txs.map (·.h))
   { txdb := r.1, cache := r.2, unspent := st.1.foldl (fun un p => setKey un p.1 p.2) st.2 }
 
+/-- `ChainStoreFFLDB.SaveBlock`, second database transaction: best state and block index, then the save
+    processors, then the index manager.  The database part is atomic (a failing processor rolls it back);
+    the indexed tx cache is **not** part of the transaction, so what matters is that the index manager —
+    the only step that touches the cache — runs after every step that can fail. -/
+def UIdx.saveBlock (u : UIdx) (victims : List Nat) (height : Nat) (txs : List BTx) (processorsOK : Bool) : UIdx :=
+  if processorsOK then u.connectBlock victims height txs else u
+
+/-- the same with the index manager *before* the processors: on a processor failure the database is rolled
+    back but the cache keeps what `ConnectBlock` put into it -/
+def UIdx.saveBlockIndexFirst (u : UIdx) (victims : List Nat) (height : Nat) (txs : List BTx) (processorsOK : Bool) : UIdx :=
+  if processorsOK then u.connectBlock victims height txs
+  else { u with cache := (u.connectBlock victims height txs).cache }
+
 /-! ## C. decoded block cache -/
 
 abbrev BlockDb := List (Nat × Nat)
